@@ -39,6 +39,7 @@ type Program struct {
 
 // Func is a declared function, method or function literal of a repo package.
 type Func struct {
+	recvAsParam bool // a method of the reference tree written as a function taking the receiver first (names.go)
 	decodePtrTargets map[types.Object]bool
 	decodeParams     map[int]bool
 	progFuncs        map[*types.Func]*Func     // the program's function index (set by Load)
@@ -69,6 +70,18 @@ type binding struct {
 	caller *Func
 	call   *ast.CallExpr // nil for method values
 	recv   ast.Expr
+	args   []ast.Expr // the arguments bound to the parameters (call.Args unless the receiver travels as the first argument)
+}
+
+// argv: the argument expressions bound to the instance's parameters, by parameter index.
+func (b *binding) argv() []ast.Expr {
+	if b == nil || b.call == nil {
+		return nil
+	}
+	if b.args != nil {
+		return b.args
+	}
+	return b.call.Args
 }
 
 func (f *Func) origOrSelf() *Func {
@@ -182,6 +195,12 @@ func (p *Program) indexPkg(pk *packages.Package) {
 			f := &Func{Pkg: pk, Decl: fd, Obj: obj, Body: fd.Body, Type: fd.Type, Name: funcName(obj), progFuncs: p.Funcs}
 			if sig, ok := obj.Type().(*types.Signature); ok {
 				f.Recv = sig.Recv()
+				if funcAliasRecv[obj] != "" && sig.Recv() == nil && sig.Params().Len() > 0 && len(fd.Type.Params.List) > 0 && len(fd.Type.Params.List[0].Names) == 1 {
+					// the reference tree's method, now a function taking the receiver first: seen as the method
+					f.recvAsParam = true
+					f.Recv = sig.Params().At(0)
+					f.Type = &ast.FuncType{Func: fd.Type.Func, Params: &ast.FieldList{List: fd.Type.Params.List[1:]}, Results: fd.Type.Results}
+				}
 			}
 			p.Funcs[obj] = f
 			p.All = append(p.All, f)
@@ -231,6 +250,13 @@ func funcName(obj *types.Func) string {
 		pkg = shortPkg(obj.Pkg().Path())
 	}
 	sig, _ := obj.Type().(*types.Signature)
+	if rv := funcAliasRecv[obj]; rv != "" {
+		// a method of the reference tree that is now a function taking the receiver first
+		if strings.HasPrefix(rv, "*") {
+			return fmt.Sprintf("%s.(%s).%s", pkg, rv, funcDisplay(obj))
+		}
+		return fmt.Sprintf("%s.%s.%s", pkg, rv, funcDisplay(obj))
+	}
 	if sig != nil && sig.Recv() != nil {
 		t := sig.Recv().Type()
 		ptr := ""
@@ -295,6 +321,8 @@ func (p *Program) LookupFunc(pkgPath, typeName, name string) *types.Func {
 			if nt, ok := derefNamedT(rv.Type()); ok && nt.Obj() == tn {
 				return f
 			}
+		} else if funcAliasRecv[f] != "" && strings.TrimPrefix(funcAliasRecv[f], "*") == typeName {
+			return f
 		}
 	}
 	return nil
